@@ -94,7 +94,8 @@ theorem closeMove_drop (S : Schema) {ty0 : TypeId} {a0 : Attrs} {m0 : Marks} {K 
     (hc : c < tgt.depth) (ha : tgt.after (c + 1) = some a)
     (hres : (Node.elem ty0 a0 m0 K).resolve a = some mv) :
     mv.depth = c ∧ (∀ i, i ≤ c → mv.node i = tgt.node i) ∧ (∀ i, i < c → mv.index i = tgt.index i) ∧
-      mv.index c = tgt.index c + 1 ∧ a = tgt.end_ (c + 1) + 1 ∧ mv.textOffset = 0 := by
+      mv.index c = tgt.index c + 1 ∧ a = tgt.end_ (c + 1) + 1 ∧ mv.textOffset = 0 ∧
+      (∀ i, i ≤ c → mv.end_ i = tgt.end_ i) := by
   have Rt := resolve_resolved htg
   rw [Rt.after_eq (c + 1) (by omega) (by omega)] at ha
   simp only [Option.some.injEq] at ha
@@ -129,7 +130,8 @@ theorem closeMove_drop (S : Schema) {ty0 : TypeId} {a0 : Attrs} {m0 : Marks} {K 
   rw [hdep] at hstart hidx
   have hsame := same_ancestors Rm Rt c (tgt.start c) (by omega) (by omega) (by rw [hstart]; exact Nat.le_refl _)
     (by rw [Resolved.end_eq, hstart]; omega) (Nat.le_refl _) (by rw [Resolved.end_eq]; omega)
-  refine ⟨hdep, fun i hi => (hsame i hi).1, fun i hi => (hsame i (by omega)).2.2.2 hi, ?_, ha.symm, hto⟩
+  refine ⟨hdep, fun i hi => (hsame i hi).1, fun i hi => (hsame i (by omega)).2.2.2 hi, ?_, ha.symm, hto,
+    fun i hi => (hsame i hi).2.2.1⟩
   rw [hidx, List.length_take]
   omega
 
@@ -216,7 +218,7 @@ theorem closeFacts_of (S : Schema) {ty0 : TypeId} {a0 : Attrs} {m0 : Marks} {K :
     have hc : lv.depth < tgt.depth := by
       simp only [dropInnerB, Bool.and_eq_true, decide_eq_true_eq] at hb
       exact hb.1
-    obtain ⟨hdep, hnodes, hidx, hidxc, hae, hto⟩ := closeMove_drop S htg hn lv.depth hc ha hres
+    obtain ⟨hdep, hnodes, hidx, hidxc, hae, hto, _⟩ := closeMove_drop S htg hn lv.depth hc ha hres
     rw [hb]
     refine ⟨⟨hcD, hcT, by omega, hnodes, hidx, ?_, hin, by rw [hb] at hlev; exact hlev⟩, a, hres, ?_,
       fun _ => ⟨hdep, hto⟩, fun h => by simp at h⟩
